@@ -267,6 +267,29 @@ void runC12(const Scenario& sc, vf::Result& res) {
     }
 
     TranspositionTable tt((U64)hashMB * 65536);
+    // optionally another class is already resident when the (possibly aborted) generation starts
+    const std::string preKey = sc.knobStr("pre_key", "");
+    std::vector<dtm::Man> preMen;
+    if (!preKey.empty()) {
+        preMen = tba::menOfKey(preKey, sc.knobInt("pre_flip", 0) != 0);
+        Position pre;
+        for (int t = 0; t < 10000; t++) {
+            int sq[4];
+            std::vector<int> sqv;
+            bool ok = true;
+            for (size_t i = 0; i < preMen.size(); i++) { sq[i] = (int)r.below(64); for (size_t j = 0; j < i; j++) if (sq[j] == sq[i]) ok = false; sqv.push_back(sq[i]); }
+            if (!ok) continue;
+            dtm::Value v = dtm::probe(preMen, sqv, true);
+            if (v.kind == dtm::Value::ILLEGAL_POS || v.kind == dtm::Value::NOT_COVERED) continue;
+            Position q;
+            place(q, preMen, sq, true, nullptr);
+            pre = q;
+            break;
+        }
+        RelaxedShared<S64> noLimit;
+        noLimit = -1;
+        if (tt.updateTB(pre, noLimit)) res.counters["probe_other_table_resident_before"]++;
+    }
     const long stepsBefore = (long)vsim::stats().steps;
     if (abortStep >= 0) actor.atStep = stepsBefore + abortStep; // abort points are counted from the start of the generation
     bool ok = tt.updateTB(root, maxT);
@@ -301,6 +324,23 @@ void runC12(const Scenario& sc, vf::Result& res) {
                 if (q.getPiece(Square(s0)) == Piece::EMPTY) { q.setPiece(Square(s0), r.chance(0.5) ? Piece::WPAWN : Piece::BPAWN); break; }
             if (tt.probeDTM(q, 0, sc2)) res.violate("C12", "out-of-scope-answered", "position with a pawn answered: " + TextIO::toFEN(q));
         }
+        if (!preMen.empty()) {
+            Sweep sp;
+            sweep(preMen, ttProbe, false, std::max(sampleEvery, 5L), r, sp);
+            if (sp.wrong) res.violate("C12", "overwritten-table-in-use", "positions of the previously resident " + preKey + " table are answered wrongly after " + key + " was generated; first: " + sp.firstWrong);
+        }
+        // clear() drops the table: afterwards nothing may be answered from the zeroed memory
+        tt.clear();
+        {
+            Sweep sc3;
+            sweep(men, ttProbe, false, std::max(sampleEvery, 9L), r, sc3);
+            res.counters["probe_clear_with_resident_table"]++;
+            if (sc3.hits) res.violate("C12", "table-in-use-after-clear", "after TranspositionTable::clear() " + std::to_string(sc3.hits) + " probes are still answered (" +
+                                      std::to_string(sc3.wrong) + " wrongly)" + (sc3.firstWrong.empty() ? "" : "; first: " + sc3.firstWrong));
+            hashTraffic(tt, r, 2000);
+            std::string d;
+            (void)d;
+        }
     } else {
         res.counters["probe_aborted_generation"]++;
         // an aborted generation must not be in use: nothing it answers may be wrong, now or after hash traffic
@@ -314,6 +354,14 @@ void runC12(const Scenario& sc, vf::Result& res) {
         sweep(men, ttProbe, false, std::max(sampleEvery, 3L), r, s2);
         if (s2.wrong) res.violate("C12", "partial-table-in-use", "after an aborted generation and hash traffic the table answered " +
                                   std::to_string(s2.hits) + " probes, " + std::to_string(s2.wrong) + " of them wrongly; first: " + s2.firstWrong);
+        if (!preMen.empty()) {
+            // the table that was resident before shares the memory the aborted generation wrote into
+            Sweep sp;
+            sweep(preMen, ttProbe, false, std::max(sampleEvery, 3L), r, sp);
+            res.counters["answers_for_previous_table_after_abort"] = sp.hits;
+            if (sp.wrong) res.violate("C12", "overwritten-table-in-use", "after an aborted generation the previously resident " + preKey + " table still answers " +
+                                      std::to_string(sp.hits) + " probes, " + std::to_string(sp.wrong) + " of them wrongly; first: " + sp.firstWrong);
+        }
         // a later request must regenerate an exact table or report unavailable
         actor.atStep = -1;
         maxT = -1;
@@ -353,6 +401,7 @@ void genC12(uint64_t seed, int tier, Scenario& sc) {
         sc.set("flip", (long long)(ci % 2));
         sc.set("hash_mb", r.chance(0.5) ? 8 : (long long)r.range(8, 32));
         sc.set("traffic", r.logRange(1000, 200000));
+        if (r.chance(0.5)) { sc.setS("pre_key", k3[r.below(k3.size())]); sc.set("pre_flip", r.chance(0.5) ? 1 : 0); }
         if (wi == 0) { sc.set("storage_tt", 1); }
         else if (wi == 1) { sc.set("storage_tt", 0); }
         else {
@@ -552,6 +601,7 @@ void genC13(uint64_t seed, int tier, Scenario& sc) {
         else sc.ops.push_back("wait_ticks " + std::to_string(r.chance(0.2) ? r.logRange(10, 3000) : 40000)); // normally until the search has ended by itself (deep enough for the mate)
         gu::pushSend(sc, "stop");
         sc.ops.push_back("wait_bestmove");
+        if (r.chance(0.25)) gu::pushSend(sc, r.chance(0.5) ? "setoption name Clear Hash" : "ucinewgame"); // the table must be dropped and rebuilt, not reused
         if (r.chance(0.2)) { pg::GenPos gp; pg::randomGame(r, (int)r.range(0, 30), false, gp); gu::pushSend(sc, gp.positionCmd); gu::pushSend(sc, "go nodes " + std::to_string(r.logRange(100, 3000))); sc.ops.push_back("wait_bestmove"); }
     }
     gu::pushSend(sc, "quit");
